@@ -309,10 +309,15 @@ def rule_b(ctx: Context, R: Reporter):
     n_cons = 0
     for c in [base] + ctx.prog.subclasses(base):
         for m in c.methods.values():
+            fl = flow_of(m.node)
+            rs = ExprResolver(m.node)
             for s in walk_no_nested(m.node):
-                if isinstance(s, ast.Subscript) and "assignments" in norm_text(s.slice) and isinstance(s.ctx, ast.Load):
-                    n_cons += 1
-    R.floor("C14.b", "kernel subscripts by raw cluster label", n_cons, 8)
+                if isinstance(s, ast.Subscript) and isinstance(s.ctx, ast.Load):
+                    at = fl.node_containing(s)
+                    sl = rs.resolve(s.slice, at) if at is not None and isinstance(s.slice, ast.expr) else s.slice
+                    if "assignments" in norm_text(sl) and "assignments" not in norm_text(s.value):
+                        n_cons += 1
+    R.floor("C14.b", "kernel subscripts by raw cluster label", n_cons, 4)
     # producers: factories taking labels
     n_prod = 0
     for m in mc.methods.values():
@@ -341,11 +346,17 @@ def rule_b(ctx: Context, R: Reporter):
 
 
 # ------------------------------------------------------------------ C14.c
-def _factory_sequence(ctx: Context, m: FuncInfo) -> List[str]:
-    """Ordered role sequence of a factory: normalise, resample, fit, dof-guard, construct."""
+def _factory_sequence(ctx: Context, m: FuncInfo, _depth: int = 0) -> List[str]:
+    """Ordered role sequence of a factory: normalise, resample, fit, dof-guard,
+    construct.  Calls of helpers of the same class / module are spliced in."""
     fl = flow_of(m.node)
     seq = []
     for nd in sorted(fl.cfg.stmt_nodes(), key=lambda n: n.lineno):
+        if _depth < 2:
+            for c in calls_in_node(nd):
+                for t in ctx.res.call_targets(m, c):
+                    if isinstance(t, FuncInfo) and t is not m and ((t.cls is not None and t.cls is m.cls and not t.is_classmethod) or (t.cls is None and t.module is m.module)) and not t.name.startswith("fit_"):
+                        seq += _factory_sequence(ctx, t, _depth + 1)
         s = nd.stmt
         if nd.kind == "stmt" and isinstance(s, ast.Assign) and isinstance(s.value, ast.BinOp) and isinstance(s.value.op, ast.Div):
             r = s.value.right
